@@ -32,7 +32,7 @@ ASSUME = ["ray stand-in: a remote job is a pure function of its pickled submissi
           "measurement noise is seeded per job serial so noisy values are comparable across schedules"]
 SHARDS = {"quick": 8, "thorough": 16}
 BUDGET_S = {"quick": 100, "thorough": 1300}
-DECIDING = ["one_record", "one_record_db", "pointing", "order_indep", "tasked_pairs"]
+DECIDING = ["one_record", "one_record_db", "pointing", "visibility_rows", "order_indep", "tasked_pairs"]
 MANIFEST = {
     "technique": "runtime monitoring with schedule control: completion orders of each job batch enumerated/sampled through a deterministic ray stand-in; per-step digests compared across schedules; bookkeeping checked against the decision matrix",
     "level_text": "held on every executed (network, schedule): exactly one record per tasked pair, pointing state reflects the tasking, step products identical across all executed completion orders",
@@ -89,6 +89,18 @@ def _run_once(net, script=None, default="identity", sched_seed=0, exec_mode=None
     b = sk.build(cfg, scheduler=sched, base_seed=net["seed"], exec_order=exec_order)
     rec = Rec()
     undo = _install(rec)
+    rec.reward_vis = {}
+
+    def after_job(func_name, serial, ref):  # what each reward job of this step returned for its target
+        if func_name == "asyncCalculateReward" and ref.error is None and ref.data is not None:
+            try:
+                res = shimray._load(ref.data, ref.bufs)  # noqa: SLF001
+                # (a target tracked through two engines gets one reward job per engine: keep them all)
+                rec.reward_vis.setdefault((rec.step, int(res.estimate_id)), []).append(np.array(res.visibility, dtype=bool).reshape(-1))
+            except Exception:  # noqa: BLE001
+                pass
+
+    shimray.STATE.after_job = after_job
     out = {"digests": [], "facts": [], "batches": None, "error": None}
     try:
         app = b.app
@@ -99,7 +111,13 @@ def _run_once(net, script=None, default="identity", sched_seed=0, exec_mode=None
             d = netkit.step_digest(app)
             pairs, obs_now, miss_all = [], [], []
             jd = float(app.clock.julian_date_epoch)
+            stale = []
             for eng in app.tasking_engines.values():
+                vm = np.array(eng.visibility_matrix, dtype=bool)
+                for row, tid in enumerate(eng.target_list):
+                    got = [g_ for g_ in rec.reward_vis.get((k, int(tid)), []) if g_.shape == vm[row].shape]
+                    if got and not any(np.array_equal(vm[row], g_) for g_ in got):
+                        stale.append((int(eng.unique_id), int(tid), vm[row].astype(int).tolist(), [g_.astype(int).tolist() for g_ in got]))
                 dec = np.array(eng.decision_matrix, dtype=bool)
                 pairs += [(int(eng.sensor_list[j]), int(eng.target_list[i])) for i in range(dec.shape[0]) for j in range(dec.shape[1]) if dec[i, j]]
                 obs_now += [(int(o.sensor_id), int(o.target_id)) for o in eng.observations]
@@ -111,7 +129,7 @@ def _run_once(net, script=None, default="identity", sched_seed=0, exec_mode=None
             if k % save_every == 0 or k == net["nsteps"]:
                 app.saveDatabaseOutput()
             out["digests"].append(d)
-            out["facts"].append({"step": k, "jd": jd, "pairs": pairs, "obs_now": obs_now, "miss_all": miss_all, "db_obs": [], "db_miss": [],
+            out["facts"].append({"stale_visibility": stale, "step": k, "jd": jd, "pairs": pairs, "obs_now": obs_now, "miss_all": miss_all, "db_obs": [], "db_miss": [],
                                  "before": before, "after": after, "time": float(app.clock.time),
                                  "collect": [c for c in rec.collect if c[0] == k]})
         con = sqlite3.connect(b.db_path)
@@ -161,6 +179,8 @@ def check_bookkeeping(ctx, net, res, sched_desc):
             okd = (n_obs_db + n_miss_db) == 1
             keyd = "one-record-db" + tagm + ("-duplicate-miss" if n_miss_db > 1 else "-duplicate-observation" if n_obs_db > 1 else "-both" if n_obs_db and n_miss_db else "-none" if n_obs_db + n_miss_db == 0 else "")
             ctx.check(okd, keyd, f"step {f['step']}: tasked pair sensor {s} -> target {t} has {n_obs_db} observation row(s) and {n_miss_db} missed-observation row(s) stored for this epoch ({net['policy']})", wit, mon="one_record_db")
+        ctx.check(not f.get("stale_visibility"), "visibility-row-not-what-the-reward-job-returned", f"step {f['step']}: the engine's visibility row differs from what this step's reward job returned "
+                  f"for (engine, target, matrix row, job result) {f.get('stale_visibility', [])[:2]}", wit, mon="visibility_rows")
         # stale misses of earlier epochs must not be presented as this step's
         # (engine.missed_observations is documented as 'for the previous timestep')
         stale = [m for m in f["miss_all"] if m[2] != jd]
